@@ -166,6 +166,8 @@ int asm_main_shim(void *heap{params}) {{
     )
 }
 
+const UC_DEFS: &[&str] = &["-Dmain=scc_driver_main", "-Dwrite=sim_write", "-Dcalloc=sim_calloc", "-Dmalloc=sim_malloc", "-Dmemset=sim_memset", "-Dfree=sim_free", "-Datexit=sim_atexit", "-Dexit=sim_exit", "-Dprintf=sim_printf", "-Dfprintf=sim_fprintf", "-Ddprintf=sim_dprintf", "-Dputs=sim_puts", "-Dfputs=sim_fputs", "-Dputchar=sim_putchar", "-Dfputc=sim_fputc", "-Dputc=sim_fputc", "-Dfwrite=sim_fwrite", "-Dfflush=sim_fflush", "-U_FORTIFY_SOURCE"];
+
 impl CRuntime {
     /// compile the real io.c and the real generated drivers for 0..=5 arguments
     pub fn build(tag: &str) -> Result<CRuntime, String> {
@@ -216,6 +218,23 @@ impl CRuntime {
                     libc::dlclose(h);
                 }
                 libs.push(lib);
+            }
+            // io.c once more as the AArch64 ABI sees it (plain `char` is unsigned there); used by
+            // half of the print-only runs and print streams
+            {
+                let run = |args: &[&str]| -> Result<(), String> {
+                    let o = Command::new("gcc").args(args).output().map_err(|e| format!("gcc: {e}"))?;
+                    if !o.status.success() {
+                        return Err(format!("gcc {:?} failed: {}", args, String::from_utf8_lossy(&o.stderr)));
+                    }
+                    Ok(())
+                };
+                let mut a: Vec<String> = vec!["-fPIC".into(), "-O1".into(), "-w".into(), "-funsigned-char".into(), "-c".into(), "io.c".into(), "-o".into(), "io_uc.o".into()];
+                a.extend(UC_DEFS.iter().map(|s| s.to_string()));
+                run(&a.iter().map(|s| s.as_str()).collect::<Vec<_>>())?;
+                let so = format!("{dir}/libdrv_uc.so");
+                run(&["-shared", "-o", &so, "driver0.o", "io_uc.o", "shim0.o"])?;
+                libs.push(Lib { so: CString::new(so).unwrap() });
             }
             Ok(())
         })();
@@ -412,7 +431,8 @@ pub fn run_print(rt: &CRuntime, newline: bool, v: i64) -> (Vec<u8>, u32, BTreeSe
     unsafe {
         JOB = &mut job;
         RT = rt;
-        let o = rt.libs[0].open();
+        // (index 6: io.c compiled with unsigned plain char)
+        let o = rt.libs[if (v as u64 ^ newline as u64).count_ones() % 2 == 0 { 0 } else { 6 }].open();
         CUR = &o;
         native_enter();
         native_print(newline, v);
@@ -441,7 +461,7 @@ pub fn run_print_stream(rt: &CRuntime, calls: &[(bool, i64)]) -> (Vec<u8>, BTree
     unsafe {
         JOB = &mut job;
         RT = rt;
-        let o = rt.libs[0].open();
+        let o = rt.libs[if calls.len() % 2 == 0 { 0 } else { 6 }].open();
         CUR = &o;
         native_enter();
         for (nl, v) in calls {
